@@ -17,6 +17,7 @@ from vlib import hxl
 ID = 'C07'
 COMPONENTS = ['objects']
 THEOREMS = ['C07_extend_assoc', 'C07_extend_empty_r', 'C07_extend_empty_l',
+            'C07_extend_empty_r_values', 'C07_extend_empty_l_values', 'C07_remove_key_values',
             'C07_find_field_spec', 'C07_find_field_found', 'C07_no_panic_no_fuel',
             'C07_super_starts_left', 'C07_extend_super_of_left', 'C07_self_is_final', 'C07_self_sees_override',
             'C07_visibility_rule', 'C07_default_override_keeps_inherited',
@@ -134,8 +135,19 @@ def names_per_layer(e, acc):
 
 # ---------------------------------------------------------------- generator
 
-def gen_body(rng, names, depth=0):
+def gen_body(rng, names, depth=0, safe=False):
     r = rng.random()
+    if safe:
+        # sources of std.prune / std.mergePatch are forced while the object is built: keep most of them error-free
+        if r < 0.70:
+            return ['n', rng.choice([0, 1, 2, 3, 5, 7, 10, 20, 50, 100, -1, -4])]
+        if r < 0.85:
+            return ['u']
+        if r < 0.93:
+            return ['s', rng.choice(names)]
+        if r < 0.97:
+            return ['i', rng.choice(names)]
+        return ['p', rng.choice(names)]
     if r < 0.42:
         return ['n', rng.choice([0, 1, 2, 3, 5, 7, 10, 20, 50, 100, -1, -4])]
     if r < 0.47:
@@ -151,40 +163,40 @@ def gen_body(rng, names, depth=0):
     return ['a', gen_body(rng, names, depth + 1), gen_body(rng, names, depth + 1)]
 
 
-def gen_literal(rng, names):
+def gen_literal(rng, names, safe=False):
     if rng.random() < 0.12:
         # comprehension-built layer: same body, default visibility for every field
         k = rng.choice([1, 2, 2, 3])
         ns = rng.sample(names, k)
-        plus = 1 if rng.random() < 0.25 else 0
-        b = gen_body(rng, names)
+        plus = 1 if rng.random() < (0.08 if safe else 0.25) else 0
+        b = gen_body(rng, names, 0, safe)
         return ['L', [[n, 'd', plus, b] for n in ns], 'comp']
     k = rng.choice([0, 1, 1, 1, 2, 2, 2, 3, 4])
     ns = rng.sample(names, k)
     fs = []
     for n in ns:
         v = rng.choice('ddddhhvv')
-        plus = 1 if rng.random() < 0.25 else 0
-        fs.append([n, v, plus, gen_body(rng, names)])
+        plus = 1 if rng.random() < (0.08 if safe else 0.25) else 0
+        fs.append([n, v, plus, gen_body(rng, names, 0, safe)])
     return ['L', fs, 'lit']
 
 
-def gen_atom(rng, names, depth):
+def gen_atom(rng, names, depth, safe=False):
     r = rng.random()
     if depth >= 2 or r < 0.62:
-        return gen_literal(rng, names)
+        return gen_literal(rng, names, safe)
     if r < 0.84:
-        return ['R', gen_chain_expr(rng, names, depth + 1), rng.choice(names)]
+        return ['R', gen_chain_expr(rng, names, depth + 1, safe), rng.choice(names)]
     if r < 0.90:
-        return ['M', rng.choice([10, 100, 1000]), gen_chain_expr(rng, names, depth + 1)]
+        return ['M', rng.choice([10, 100, 1000]), gen_chain_expr(rng, names, depth + 1, safe)]
     if r < 0.95:
-        return ['N', gen_chain_expr(rng, names, depth + 1)]
-    return ['G', gen_chain_expr(rng, names, depth + 1), gen_chain_expr(rng, names, depth + 1)]
+        return ['N', gen_chain_expr(rng, names, depth + 1, True)]
+    return ['G', gen_chain_expr(rng, names, depth + 1, True), gen_chain_expr(rng, names, depth + 1, True)]
 
 
-def gen_chain_expr(rng, names, depth):
+def gen_chain_expr(rng, names, depth, safe=False):
     k = rng.choice([1, 1, 2, 2, 3])
-    atoms = [gen_atom(rng, names, depth) for _ in range(k)]
+    atoms = [gen_atom(rng, names, depth, safe) for _ in range(k)]
     return tree_expr(random_tree(rng, 0, k), atoms)
 
 
